@@ -183,6 +183,8 @@ def apply(st, op, params, check=True):
             s.stale = False
         elif kind == "addpt":
             _, pi, L = op
+            if m.npt_so_far < m.num_pts:
+                raise Disabled("add_new_point is only used on a complete point set (soft restart with increased npt)")
             r = s.letter(L)
             xrel = np.array(PTS[pi])
             ev = s.next_eval
@@ -253,6 +255,8 @@ def apply(st, op, params, check=True):
             s.stale = False
         elif kind == "c_addpt":
             _, x, r, ev = op
+            if m.npt_so_far < m.num_pts:
+                raise Disabled("add_new_point is only used on a complete point set")
             xrel, r = np.array(x, dtype=float), np.array(r, dtype=float)
             m.add_new_point(xrel, r, int(ev))
             s.pts.append([s.xbase + xrel, [r.copy()], int(ev)])
@@ -271,6 +275,14 @@ def apply(st, op, params, check=True):
             raise ValueError(op)
     except AssertionError as e:
         raise Disabled(str(e))
+    # exact ties: which of several equally good points is the incumbent is not determined by the property (np.nanargmin
+    # takes the first, a comparison keeps the old one) - follow the model's choice among tied points, so that a later
+    # overwrite of "the incumbent" means the same slot for both
+    o = s.objs()
+    if 0 <= m.kopt < len(o) and m.kopt != s.kopt:
+        a, b = rank(o[m.kopt]), rank(o[s.kopt])
+        if a == b or abs(a - b) <= 1e-12 * max(1.0, abs(b)):
+            s.kopt = int(m.kopt)
     return check_state(st, params) if check else []
 
 
